@@ -336,6 +336,12 @@ def repair_residue(molecule, ref_residue, include_graph):
             # Update found as well to keep found and molecule in line. It would
             # be better to try and figure why found is not a reference, but meh
             found.nodes[res_idx].update(ref_node)
+            if 'mutation' in ref_residue:
+                # Atoms described by a modification rather than by the block
+                # (e.g. OXT) carry no residue name of their own in the
+                # reference; they belong to the mutated residue too.
+                node['resname'] = resname
+                found.nodes[res_idx]['resname'] = resname
         else:
             message = 'Missing atom {}{}:{}'
             args = (resname, resid, reference.nodes[ref_idx]['atomname'])
